@@ -142,7 +142,7 @@ used already and asked for triggers that random testing is unlikely to hit):
   see DESIGN section 13 "Round 7" for the list of extensions; two changes were re-filed under the property whose
   quantifier they need (`C09-tee-recheck-only-on-exhaustion`, `C08-asend-disabled-only-by-public-aclose`).
 * round 8 (35 admitted changes for 14 properties, 5 missed at first; one rejected): see DESIGN section 13 "Round 8".
-* round 9 (22 admitted changes for 8 properties, 12 missed at first; two rejected): see DESIGN section 13 "Round 9".
+* round 9 (22 admitted changes for 8 properties, 10 missed at first; two more rejected): see DESIGN section 13 "Round 9".
 
 | id | change | needs to manifest | detected by its property's check | also caught by |
 |----|--------|-------------------|----------------------------------|----------------|
